@@ -50,7 +50,13 @@ def gen_series(rng):
     ys = []
     for i in range(n):
         r = rng.random()
-        if r < 0.25:
+        if r < 0.12 and ys:
+            # a repeat of the previous reading up to round-off (compensated or averaged logger data), on or beside the
+            # level the previous reading sits on: -7.6 then -7.60000000000002
+            k = round(ys[-1] / step)
+            base = k * step if rng.random() < 0.7 else ys[-1]
+            y = base + rng.choice([-1, 1, 0]) * abs(base if base else step) * rng.choice([2.3e-16, 1e-15, 3e-14, 1e-12, 4e-11])
+        elif r < 0.25:
             y = (round(y / step) + rng.randint(-3, 3)) * step   # exactly on a level (as computed in floating point)
         elif r < 0.35:
             y = math.nextafter((round(y / step) + rng.randint(-3, 3)) * step, rng.choice([-math.inf, math.inf]))
@@ -184,8 +190,11 @@ def run_headmap(ctx, n):
             [[q2s(Fraction(x)), q2s(Fraction(y))] for x, y in zip(xs, ys)] for xs, ys in series]})
         want = sorted((k, sorted((s, Fraction(t)) for s, t in v)) for k, v in m["mapping"])
         ctx.case(("headmap", step, str(series)), bool(got))
+        # positions: relative to the span of the series (not to the magnitude of the epoch), plus the root finder's
+        # own resolution at that magnitude (brentq: 2e-12 + 4 eps |x|) and the rounding of a mean
+        span = {i_: max(1.0, xs_[-1] - xs_[0]) for i_, (xs_, _ys) in enumerate(series)}
         ok = [(k, [s for s, _ in v]) for k, v in got] == [(k, [s for s, _ in v]) for k, v in want] and all(
-            abs(Fraction(t) - tq) <= Fraction(1e-9 * max(1.0, abs(t)) + 1e-6 if abs(t) > 1e8 else 1e-9 * max(1.0, abs(t)))
+            abs(Fraction(t) - tq) <= Fraction(1e-9 * span[s] + 16 * 2.3e-16 * abs(t) + 4e-12)
             for (k, v), (_k, vq) in zip(got, want) for (s, t), (_s, tq) in zip(v, vq))
         ctx.obligation(ob, ok)
         if not ok:
